@@ -797,5 +797,6 @@ func TestCheck(t *testing.T) {
 	r := vlib.NewRunner(t, "C03")
 	vlib.RunCheck(r, vlib.Check[Case]{Name: "lifecycle", N: r.Pick(400, 10000), Gen: gen, Run: runCase, Confirm: true, RecordCurrent: true})
 	vlib.RunCheck(r, vlib.Check[Churn]{Name: "churn", N: r.Pick(160, 4000), Gen: genChurn, Run: runChurn, Confirm: true, RecordCurrent: true})
+	runShimTier(r)
 	r.Finish()
 }
